@@ -176,9 +176,17 @@ theorem pushDefaultK_cnt : ∀ (b : B) (k : Nat) (b' : B), pushDefaultK b k = .o
     · simp [fail] at h
   | .union p (.cons c m rest) types offs cur, k, b', h, hc => by
     simp only [pushDefaultK, ctx_ok] at h
-    split at h
-    · simp [fail] at h
-    · obtain ⟨fs', h1, h2⟩ := (bind_ok _ _ _).1 h
+    by_cases hk : k ≠ 0 ∧ firstReal (.cons c m rest) > 127
+    · rw [if_pos hk] at h; split at h <;> simp [fail] at h
+    · rw [if_neg hk] at h
+      by_cases hk1 : k ≠ 0 ∧ cur.getD (firstReal (.cons c m rest)) 0 + 1 > 2147483647
+      · rw [if_pos hk1] at h; simp [fail] at h
+      rw [if_neg hk1] at h
+      obtain ⟨fs', h1, h2⟩ := (bind_ok _ _ _).1 h
+      by_cases hk2 : k ≠ 0 ∧ cur.getD (firstReal (.cons c m rest)) 0 + (k : Int) > 2147483647
+      · rw [if_pos hk2] at h2; simp [fail] at h2
+      rw [if_neg hk2] at h2
+      simp only [pure, Except.pure] at h2
       cases h2
       simp only [Cnt] at hc ⊢
       refine ⟨pushDefaultKAt_cnt _ _ k fs' h1 hc.1, ?_⟩
